@@ -266,6 +266,88 @@ class Fn:
         return "Fn(%s @ %s)" % (self.qual, self.where())
 
 
+def _binds_nothing(p):
+    k = p.get("k")
+    if k in ("wild", "rest", "lit"):
+        return True
+    if k == "path":
+        return True
+    if k == "ident":
+        return p.get("name", "a")[:1].isupper() and not p.get("sub")  # `None`
+    if k == "tuplestruct":
+        return all(_binds_nothing(e) for e in p.get("elems", []))
+    if k == "ref":
+        return _binds_nothing(p["pat"])
+    return False
+
+
+def _diverges(b):
+    if not isinstance(b, dict):
+        return False
+    if b.get("k") in ("return", "continue", "break"):
+        return True
+    if b.get("k") == "macro" and b.get("name") in ("panic", "unreachable", "todo", "unimplemented"):
+        return True
+    if b.get("k") == "block" and b.get("stmts"):
+        last = b["stmts"][-1]
+        return last.get("k") == "expr" and _diverges(last.get("e"))
+    return False
+
+
+def _match_as_let_else(x):
+    """`let v = match S { A(c) => c, <pattern that binds nothing> => <diverges> };` is `let A(v) = S else { <diverges> };` - the same statement written without let-else"""
+    m = x["init"]
+    if x["pat"].get("k") != "ident" or x["pat"].get("sub") or len(m.get("arms", [])) != 2 or any(a.get("guard") for a in m["arms"]):
+        return None
+    for keep, other in ((m["arms"][0], m["arms"][1]), (m["arms"][1], m["arms"][0])):
+        p, b = keep["pat"], keep["body"]
+        while isinstance(b, dict) and b.get("k") == "block" and len(b.get("stmts", [])) == 1 and b["stmts"][0].get("k") == "expr" and not b["stmts"][0].get("semi"):
+            b = b["stmts"][0]["e"]
+        if not (p.get("k") == "tuplestruct" and len(p.get("elems", [])) == 1 and p["elems"][0].get("k") == "ident" and not p["elems"][0].get("sub") and not p["elems"][0].get("by_ref")):
+            continue
+        if not (isinstance(b, dict) and b.get("k") == "path" and b.get("segs") == [p["elems"][0]["name"]]):
+            continue
+        if not (_binds_nothing(other["pat"]) and _diverges(other["body"])):
+            continue
+        els = other["body"] if other["body"].get("k") == "block" else {"k": "block", "l": other["body"].get("l", 0), "stmts": [{"k": "expr", "l": other["body"].get("l", 0), "e": other["body"], "semi": True}]}
+        newpat = dict(p, elems=[dict(x["pat"])])
+        return dict(x, pat=newpat, init=m["e"], **{"else": els})
+    return None
+
+
+def _match_as_let_else_then_let(x, rest):
+    """`let v = match S { A(c) => E(c), <binds nothing> => <diverges> };` is `let A(c) = S else { <diverges> }; let v = E(c);` - when c is v itself or is not a name the following
+    statements use (the binding of c becomes visible to them)."""
+    m = x["init"]
+    if len(m.get("arms", [])) != 2 or any(a.get("guard") for a in m["arms"]):
+        return None
+    for keep, other in ((m["arms"][0], m["arms"][1]), (m["arms"][1], m["arms"][0])):
+        p = keep["pat"]
+        if not (p.get("k") == "tuplestruct" and len(p.get("elems", [])) == 1 and p["elems"][0].get("k") == "ident" and not p["elems"][0].get("sub")):
+            continue
+        if not (_binds_nothing(other["pat"]) and _diverges(other["body"])) or _diverges(keep["body"]):
+            continue
+        c = p["elems"][0]["name"]
+        vname = x["pat"].get("name") if x["pat"].get("k") == "ident" else None
+
+        def uses(n_):
+            if isinstance(n_, list):
+                return any(uses(y) for y in n_)
+            if isinstance(n_, dict):
+                if n_.get("k") == "path" and n_.get("segs") and n_["segs"][0] == c:
+                    return True
+                return any(uses(v) for v in n_.values() if isinstance(v, (dict, list)))
+            return False
+
+        if c != vname and uses(rest):
+            continue
+        els = other["body"] if other["body"].get("k") == "block" else {"k": "block", "l": other["body"].get("l", 0), "stmts": [{"k": "expr", "l": other["body"].get("l", 0), "e": other["body"], "semi": True}]}
+        first = {"k": "let", "l": x.get("l", 0), "pat": p, "init": m["e"], "else": els}
+        second = dict(x, init=keep["body"])
+        return [first, second]
+    return None
+
+
 def desugar_let_else(n, top=False):
     """In place: `let P = E else { D }; rest..` becomes the tail expression `if let P = E { rest.. } else { D }` of its block, so that every rule reads
     the let-else form (absent from the pinned tree, common in tidy-up refactorings) like the if-let it abbreviates.  In the top-level block of a function or
@@ -280,6 +362,10 @@ def desugar_let_else(n, top=False):
     if k == "block" and isinstance(n.get("stmts"), list):
         st = n["stmts"]
         for i, x in enumerate(st):
+            if isinstance(x, dict) and x.get("k") == "let" and x.get("else") is None and isinstance(x.get("init"), dict) and x["init"].get("k") == "match":
+                le = _match_as_let_else(x)
+                if le is not None:
+                    st[i] = x = le
             if isinstance(x, dict) and x.get("k") == "let" and x.get("else") is not None and x.get("init") is not None:
                 rest = {"k": "block", "l": x.get("l", 0), "stmts": st[i + 1 :]}
                 els = x["else"]
@@ -300,11 +386,37 @@ def desugar_let_else(n, top=False):
             desugar_let_else(v, top=(k in ("fn", "closure") and key == "body"))
 
 
+def desugar_bool_match(n):
+    """In place: `match c { true => A, false => B }` (either order, `_` for the second arm) becomes `if c { A } else { B }` - the same expression."""
+    if isinstance(n, list):
+        for x in n:
+            desugar_bool_match(x)
+        return
+    if not isinstance(n, dict):
+        return
+    for v in n.values():
+        if isinstance(v, (dict, list)):
+            desugar_bool_match(v)
+    if n.get("k") == "match" and len(n.get("arms", [])) == 2 and not any(a.get("guard") for a in n["arms"]):
+        def lit(p):
+            return p["v"] if p.get("k") == "lit" and p.get("t") == "bool" else None
+
+        a, b = n["arms"]
+        va, vb = lit(a["pat"]), lit(b["pat"])
+        if va is not None and (vb is not None and bool(vb) != bool(va) or b["pat"].get("k") == "wild"):
+            t, e = (a, b) if bool(va) and str(va) != "false" else (b, a)
+            blk = lambda x: x if x.get("k") == "block" else {"k": "block", "l": x.get("l", 0), "stmts": [{"k": "expr", "l": x.get("l", 0), "e": x, "semi": False}]}
+            cond, l = n["e"], n.get("l", 0)
+            n.clear()
+            n.update({"k": "if", "l": l, "cond": cond, "then": blk(t["body"]), "else": blk(e["body"])})
+
+
 class Src:
     def __init__(self, doc):
         self.doc = doc
         if not doc.get("_let_else_desugared"):
             for f in doc["files"]:
+                desugar_bool_match(f["items"])
                 desugar_let_else(f["items"])
             doc["_let_else_desugared"] = True
         self.files = {f["file"]: f for f in doc["files"]}
@@ -544,6 +656,9 @@ def msg_sig(msg):
                 n = n.replace("mut ", "").strip()
                 if n and n != "_":
                     t = re.sub(r"(?<![A-Za-z_0-9.])%s(?![A-Za-z_0-9])" % re.escape(n), "p%d_" % i, t)
+            # messages quote closures truncated to a width: with longer parameter names the cut falls elsewhere, so only a fixed prefix of the canonical text counts
+            # (the reason that follows the quotation is part of the signature in full)
+            t = t[:48]
         return t
 
     msg = re.sub(r"`[^`]*`", canon_span, msg)
@@ -581,6 +696,9 @@ def finish(rep, level="other", exhaustive=False):
         if "origin" in v:
             # an imported rule: the finding recorded for the origin property is the same defect
             k = (v["origin"][0], v["origin"][1], v["key"])
+        if os.environ.get("QV_SIG_DUMP") and k in kidx:
+            with open(os.environ["QV_SIG_DUMP"], "a") as fh:
+                fh.write(json.dumps({"k": list(k), "sig": msg_sig(v["msg"]), "msg": v["msg"][:200]}) + "\n")
         if k in kidx and kidx[k].get("msg_sig") in (None, msg_sig(v["msg"])):
             # a finding reported through an imported rule is recorded (and was confirmed by input) under its own property: it is listed there once
             (listed_elsewhere if "origin" in v else listed).append((v, kidx[k]))
